@@ -21,10 +21,26 @@ def check_c07(ctx, evs, tokens, obs, sent_flags, steps):
     prev_sender = None
     written = []
     completed = set()
+    times = getattr(c08.run_history, "times", [])
+    wrote_at = {}
+    try:
+        from zigpy_zboss import uart as _uart
+        ack_wait = float(_uart.ACK_TIMEOUT)
+    except Exception:
+        ack_wait = None
     for k, ((kind, arg), (label, before, after, data_writes), st) in enumerate(zip(evs, obs, steps)):
         comps = [e for e in st if e.startswith(("done", "canc"))]
+        now = times[k] if k < len(times) else None
+        for raw in data_writes:
+            wrote_at.setdefault(raw[13], now)
         for c in comps:
             i = int(c[4:])
+            if (c.startswith("done") and i in written and label == "tick" and ack_wait is not None and now is not None
+                    and wrote_at.get(i) is not None and now - wrote_at[i] < ack_wait - 1e-6):
+                ctx.counterexample("wait-ended-early", dict(events=tokens, step=k),
+                                   "the acknowledgement wait lasts %.3f s" % ack_wait,
+                                   dict(sender=i, written_at=wrote_at[i], ended_at=now),
+                                   "a sender's acknowledgement wait was ended by a timer before its own wait had expired")
             if c.startswith("done") and i in written and label not in ("ACK(current)", "tick"):
                 ctx.counterexample("wait-ended-without-cause", dict(events=tokens, step=k), "ACK(current) or expiry",
                                    dict(event=tokens[k][:24], completion=c),
